@@ -4,10 +4,13 @@ All rules read Weather.get_ground_speed through its *value flow* (c12.ValueCase)
 locals are followed through their unique reaching definition, tuple unpacking
 component-wise, helpers of the module through their single `return` with the
 arguments substituted, loops over a literal tuple through their unrolling, a
-local dict used only under constant keys as one local per key — so the
+local dict used only under constant keys as one local per key, a local
+record of the module (NamedTuple / dataclass of annotated fields, built once
+and used only through its fields and one-expression properties / methods) as
+one local per field with the members opened where they are read — so the
 verdicts do not depend on whether a step is written inline, in a local, in a
-loop, in a dict of components (display or comprehension over constant keys)
-or in a helper method.  When the function ends in several `return` statements
+loop, in a dict of components (display or comprehension over constant keys),
+in a record of components or in a helper method.  When the function ends in several `return` statements
 (a guard clause or a dispatcher per way of calling it, whose variants the
 loader put back) every reachable one is held to R1-R5 for the cases of the
 azimuth (absent, 0, ordinary) that reach it, and every case must reach one;
@@ -295,6 +298,65 @@ def scalarize_local_dicts(fn):
         for x in ast.walk(fn):
             for ch in ast.iter_child_nodes(x):
                 ch._parent = x
+    return fn
+
+
+def open_local_records(fn, m):
+    """`fn` (a private copy) with every local that holds an immutable value object of a class of the module - bound once,
+    by a statement of the function's own block, to `K(e1, e2, ..)`, K a NamedTuple / dataclass of annotated fields whose
+    properties and methods each return one expression over the fields, used only through its fields and members - read
+    as the values it carries: the arguments are first bound to locals of their own, in the order Python evaluates them
+    (`w = K(u=e1, v=e2)` is `w__u = e1; w__v = e2; w = K(u=w__u, v=w__v)`), then `astutil.open_value_objects` puts
+    `w__u` where `w.u` stands and the returned expression of a property where the property is read.  The record is a way
+    of passing values, not a computation; as locals the value flow and the NaN analysis follow them.  Anything that
+    is not of that kind is left as it is."""
+    from ..astutil import _value_class_layout, open_value_objects
+    classes = {k: c.node for k, c in m.classes.items() if c.module is m and '.' not in k}
+    if not classes:
+        return fn
+    names = {x.id for x in ast.walk(fn) if isinstance(x, ast.Name)} | {a.arg for a in ast.walk(fn) if isinstance(a, ast.arg)}
+
+    def simple(e):
+        return isinstance(e, (ast.Constant, ast.Name)) or (isinstance(e, ast.UnaryOp) and isinstance(e.operand, ast.Constant))
+
+    body, changed = [], False
+    for st in fn.body:
+        t = st.targets[0] if isinstance(st, ast.Assign) and len(st.targets) == 1 else \
+            st.target if isinstance(st, ast.AnnAssign) and st.value is not None else None
+        v = getattr(st, 'value', None)
+        if isinstance(t, ast.Name) and isinstance(v, ast.Call) and isinstance(v.func, ast.Name) and v.func.id in classes \
+                and v.func.id not in {a.arg for a in ast.walk(fn) if isinstance(a, ast.arg)} \
+                and not any(isinstance(a, ast.Starred) for a in v.args) and not any(k.arg is None for k in v.keywords):
+            lay = _value_class_layout(classes[v.func.id])
+            if lay is not None and len(v.args) <= len(lay[0]):
+                slots = [(lay[0][j][0], v.args, j) for j in range(len(v.args))] + [(k.arg, k, None) for k in v.keywords]
+                slots = [s for s in slots if not simple(s[1][s[2]] if s[2] is not None else s[1].value)]
+                fresh = [f'{t.id}__{f}' for f, _, _ in slots]
+                if len(set(fresh)) != len(fresh) or any(n in names or not n.isidentifier() for n in fresh):
+                    slots = []           # all the arguments or none: the order of evaluation stays what it is
+                for f, holder, j in slots:
+                    e = holder[j] if j is not None else holder.value
+                    new = f'{t.id}__{f}'
+                    names.add(new)
+                    # (the new binding stands before the construction; open_value_objects tells "bound before" by the
+                    # line of the target, so the target reports one line above the statement it was taken out of)
+                    tg = ast.copy_location(ast.Name(new, ast.Store()), e)
+                    tg.lineno = tg.end_lineno = st.lineno - 1
+                    body.append(ast.copy_location(ast.Assign([tg], e, lineno=e.lineno), e))
+                    ref = ast.copy_location(ast.Name(new, ast.Load()), e)
+                    if j is not None:
+                        holder[j] = ref
+                    else:
+                        holder.value = ref
+                    changed = True
+        body.append(st)
+    if changed:
+        fn.body[:] = body
+        ast.fix_missing_locations(fn)
+    open_value_objects(fn, classes)
+    for x in ast.walk(fn):
+        for ch in ast.iter_child_nodes(x):
+            ch._parent = x
     return fn
 
 
@@ -2246,7 +2308,7 @@ def run(ctx):
     prog = ctx.prog
     m = prog.module(W)
     gs = m.func('Weather.get_ground_speed')
-    fn = scalarize_local_dicts(unroll_dict_comprehensions(unroll_literal_loops(gs.node)))
+    fn = scalarize_local_dicts(open_local_records(unroll_dict_comprehensions(unroll_literal_loops(gs.node)), m))
 
     def callee_of(call):
         """helpers of this module are followed; everything else is a primitive"""
